@@ -89,6 +89,7 @@ class Shim(object):
         self.crash_after = cfg.get('crash_after')    # _exit right after op k
         self.intr_at = cfg.get('intr_at')            # KeyboardInterrupt (Ctrl-C) delivered just before op k ...
         self.intr_after = cfg.get('intr_after')      # ... or when op k returns (Python raises it after the system call)
+        self.intr_sig = cfg.get('intr_sig', 'SIGINT')  # the signal really sent: SIGINT | SIGTERM | SIGHUP
         self.faults = cfg.get('faults', [])          # [{at:k | match:{op,under}, errno:'EACCES', sticky:bool}]
         self.budget = cfg.get('budget', 20000)
         self.count_ops = set(cfg.get('count_ops', [])) or None  # which ops count as crash/fault points
@@ -242,7 +243,7 @@ class Shim(object):
                 self.intr_at = None
                 ev['res'] = 'INTR'
                 self._emit(ev)
-                raise KeyboardInterrupt()
+                self._signal(self.intr_sig)
             f = self._fault_for(op, rels) if op not in self.nofault_ops else None
             if f is not None:
                 ev['res'] = f
@@ -272,6 +273,17 @@ class Shim(object):
             self._die(137)
         if self.intr_after is not None and ev.get('seq') == self.intr_after:
             self.intr_after = None
+            self._signal(self.intr_sig)
+
+    def _signal(self, name):
+        """deliver a REAL signal to this process: whatever handler the program installed runs (none: SIGINT raises
+        KeyboardInterrupt here, SIGTERM / SIGHUP end the process); if a handler returns, the run goes on"""
+        import signal as _signal
+        import time as _time
+        os.kill(os.getpid(), getattr(_signal, name))
+        for _ in range(50):
+            _time.sleep(0)          # let the interpreter run the handler now
+        if name == 'SIGINT' and _signal.getsignal(_signal.SIGINT) is _signal.default_int_handler:
             raise KeyboardInterrupt()
 
     def _lockstep(self, ev):
